@@ -9,11 +9,11 @@ import (
 
 // Write-frame obligations (C05/C06); filled in by the frame sweep.
 
-func (c *FnCtx) checkWrite(a *addr, v string, pos token.Pos)                                   {}
-func (c *FnCtx) checkMapWrite(tt *types.Map, m, k, v string, pos token.Pos)                    {}
-func (c *FnCtx) checkMapDelete(tt *types.Map, m, k string, pos token.Pos)                      {}
-func (c *FnCtx) checkAppendWrite(st *types.Slice, s, inPlace, addLen string, pos token.Pos)    {}
-func (c *FnCtx) checkCopyWrite(st *types.Slice, d, n string, pos token.Pos)                    {}
-func (c *FnCtx) checkFrameAtReturn(x *ssa.Return)                                              {}
-func (c *FnCtx) jsonLoad(term string, t types.Type, a *addr)                                   {}
-func (c *FnCtx) jsonLoadMap(term string, tt *types.Map)                                        {}
+func (c *FnCtx) checkWrite(a *addr, v string, pos token.Pos)                                {}
+func (c *FnCtx) checkMapWrite(tt *types.Map, m, k, v string, pos token.Pos)                 {}
+func (c *FnCtx) checkMapDelete(tt *types.Map, m, k string, pos token.Pos)                   {}
+func (c *FnCtx) checkAppendWrite(st *types.Slice, s, inPlace, addLen string, pos token.Pos) {}
+func (c *FnCtx) checkCopyWrite(st *types.Slice, d, n string, pos token.Pos)                 {}
+func (c *FnCtx) checkFrameAtReturn(x *ssa.Return)                                           {}
+func (c *FnCtx) jsonLoad(term string, t types.Type, a *addr)                                {}
+func (c *FnCtx) jsonLoadMap(term string, tt *types.Map)                                     {}
